@@ -212,7 +212,11 @@ def check(run):
     oks = len(stamp) == 1 and len(adv) == 1 and q.precedes(sp, stamp[0].site, adv[0].site) and \
         adv[0].method == '+=' and 'p.buffer.size()' in q.render(sp, adv[0].site['rhs']) and q.render(sp, adv[0].site['lhs']) == q.render(sp, stamp[0].site['rhs'])
     run.check(oks, 'R4', 'stamp-before-advance', sp.norm, sp.loc(), 'the sequence number is not bytes_sent[idx] sampled before bytes_sent[idx] += payload size', 'stamped, then advanced by p.buffer.size()')
-    idx = [v for n in sp.all_nodes() if n['k'] == 'decl' for v in n['vars'] if v.get('name') == 'idx']
+    run.check(bool(adv) and q.on_all_paths(sp, [a.site for a in adv]), 'R4', 'every-transmission-counted', sp.norm, sp.loc(),
+              'the byte counter is advanced only on some paths through send_packet (e.g. only while a capture is active): a capture enabled after the connection has carried data numbers its records from 0 instead of from the bytes already transmitted',
+              'advanced on every path through send_packet')
+    q.alias_local(sp, 'idx', init_re=r'self_idx\(')
+    idx = [v for v in [q.local_var(sp, 'idx')] if v]
     if not idx:
         run.broke('send_packet: local idx not found (renamed?)')
     run.check(not idx or q.render(sp, idx[0]['init']) == 'm_channel->self_idx(m_bound_to)', 'R4', 'direction-index', sp.norm, sp.loc(), 'the counter index is not this side\'s self_idx', 'idx = self_idx(m_bound_to)')
